@@ -123,32 +123,32 @@ impl Ran {
     }
 }
 
+/// each target carries its flavour label ("static", "dynamic", and the same built with ValidationMode::Fast)
 enum Target {
-    S1(Cache<s1::S1>),
-    D1(Cache<async_graphql::dynamic::Schema>),
-    K(Cache<k::K>),
+    S1(Cache<s1::S1>, &'static str),
+    D1(Cache<async_graphql::dynamic::Schema>, &'static str),
+    K(Cache<k::K>, &'static str),
 }
 
 impl Target {
     fn flavour(&self) -> &'static str {
         match self {
-            Target::S1(_) | Target::K(_) => "static",
-            Target::D1(_) => "dynamic",
+            Target::S1(_, f) | Target::K(_, f) | Target::D1(_, f) => f,
         }
     }
     fn run(&self, l: Limit, text: &str, op: Option<&str>, vars: &Map<String, J>, stream: bool) -> Result<Ran, String> {
         let wd = Arc::new(Wd::new(Default::default()));
         let r = agv_engine::catch_quiet(|| -> Result<Vec<async_graphql::Response>, String> {
             match self {
-                Target::S1(c) => c.with(l, |s| if stream { agv_common::run_s1_stream(s, text, op, vars, wd.clone()) } else { agv_common::run_s1(s, text, op, vars, wd.clone()).map(|r| vec![r]) }),
-                Target::D1(c) => c.with(l, |s| {
+                Target::S1(c, _) => c.with(l, |s| if stream { agv_common::run_s1_stream(s, text, op, vars, wd.clone()) } else { agv_common::run_s1(s, text, op, vars, wd.clone()).map(|r| vec![r]) }),
+                Target::D1(c, _) => c.with(l, |s| {
                     if stream {
                         agv_common::dynamic::run_dynamic_stream(s, text, vars, wd.clone())
                     } else {
                         agv_common::dynamic::run_dynamic(s, text, op, vars, wd.clone()).map(|r| vec![r])
                     }
                 }),
-                Target::K(c) => c.with(l, |s| {
+                Target::K(c, _) => c.with(l, |s| {
                     let mut req = async_graphql::Request::new(text).variables(async_graphql::Variables::from_json(J::Object(vars.clone()))).data(wd.clone());
                     if let Some(o) = op {
                         req = req.operation_name(o);
@@ -167,14 +167,41 @@ impl Target {
     }
 }
 
-fn build_targets(s1_ir: &Ir) -> Result<(Target, Target, Target), String> {
+struct Targets {
+    st: Target,
+    dy: Target,
+    k: Target,
+    st_fast: Target,
+    dy_fast: Target,
+    k_fast: Target,
+}
+impl Targets {
+    fn by_label(&self, family: &str, flavour: &str) -> &Target {
+        match (family, flavour) {
+            ("custom-complexity", "static-fast") => &self.k_fast,
+            ("custom-complexity", _) => &self.k,
+            (_, "dynamic") => &self.dy,
+            (_, "dynamic-fast") => &self.dy_fast,
+            (_, "static-fast") => &self.st_fast,
+            _ => &self.st,
+        }
+    }
+}
+
+fn build_targets(s1_ir: &Ir) -> Result<Targets, String> {
+    use async_graphql::ValidationMode::Fast;
     let ir = s1_ir.clone();
+    let ir2 = s1_ir.clone();
     // the dynamic twin must build at all (a failure later inside the cache would panic)
     agv_common::dynamic::build(&ir, Default::default())?;
-    let d1 = Target::D1(Cache::new(Box::new(move |l| agv_common::dynamic::build_with(&ir, Default::default(), |b| limited_dynamic(b, l)).expect("dynamic twin of S1 builds"))));
-    let st = Target::S1(Cache::new(Box::new(|l| limited_static(s1::builder(), l).finish())));
-    let kt = Target::K(Cache::new(Box::new(|l| limited_static(k::builder(), l).finish())));
-    Ok((st, d1, kt))
+    let dy = Target::D1(Cache::new(Box::new(move |l| agv_common::dynamic::build_with(&ir, Default::default(), |b| limited_dynamic(b, l)).expect("dynamic twin of S1 builds"))), "dynamic");
+    let st = Target::S1(Cache::new(Box::new(|l| limited_static(s1::builder(), l).finish())), "static");
+    let k = Target::K(Cache::new(Box::new(|l| limited_static(k::builder(), l).finish())), "static");
+    // ValidationMode::Fast skips most validation rules but must enforce the limits all the same
+    let dy_fast = Target::D1(Cache::new(Box::new(move |l| agv_common::dynamic::build_with(&ir2, Default::default(), |b| limited_dynamic(b, l).validation_mode(Fast)).expect("dynamic twin of S1 builds"))), "dynamic-fast");
+    let st_fast = Target::S1(Cache::new(Box::new(|l| limited_static(s1::builder(), l).validation_mode(Fast).finish())), "static-fast");
+    let k_fast = Target::K(Cache::new(Box::new(|l| limited_static(k::builder(), l).validation_mode(Fast).finish())), "static-fast");
+    Ok(Targets { st, dy, k, st_fast, dy_fast, k_fast })
 }
 
 // ------------------------------------------------------------------ one document
@@ -574,10 +601,11 @@ fn run(cx: &Cx) {
         Ok(s) => s,
         Err(e) => return cx.machinery_error(format!("K reference SDL: {e}")),
     };
-    let (st_t, dy_t, k_t) = match build_targets(&ir) {
+    let ts = match build_targets(&ir) {
         Ok(x) => x,
         Err(e) => return cx.machinery_error(format!("dynamic twin of S1 does not build: {e}")),
     };
+    let (st_t, dy_t, k_t) = (&ts.st, &ts.dy, &ts.k);
     if let Err(e) = agv_common::glue::sdl_equiv(s1::SDL, &s1::schema().sdl()) {
         return cx.machinery_error(format!("S1's reference SDL and Schema::sdl() disagree: {e}"));
     }
@@ -592,27 +620,28 @@ fn run(cx: &Cx) {
     let (nodes, deco, dyn_nodes) = if quick { (4, 1, 3) } else { (5, 1, 4) };
 
     let q = GenCfg { schema: &ir, fields: FIELDS, conds: CONDS, max_nodes: nodes, max_depth: 3, named_fragments: 2, deco: Some(Class::Dev(0)), typename: false, op: OpKind::Query, root_fragments: true };
-    sweep(cx, &st, &ir, "query-static", &q, deco, &[&st_t]);
+    sweep(cx, &st, &ir, "query-static", &q, deco, &[st_t, &ts.st_fast]);
     if !quick {
         // two decorations on one document (alias + directive, directives on two nodes, …)
         let q2 = GenCfg { max_nodes: 3, ..GenCfg { schema: &ir, fields: FIELDS, conds: CONDS, max_nodes: 3, max_depth: 3, named_fragments: 2, deco: Some(Class::Dev(0)), typename: false, op: OpKind::Query, root_fragments: true } };
-        sweep(cx, &st, &ir, "query-static-2-decorations", &q2, 2, &[&st_t, &dy_t]);
+        sweep(cx, &st, &ir, "query-static-2-decorations", &q2, 2, &[st_t, dy_t]);
     }
     let dq = GenCfg { max_nodes: dyn_nodes, ..GenCfg { schema: &ir, fields: FIELDS, conds: CONDS, max_nodes: nodes, max_depth: 3, named_fragments: 2, deco: Some(Class::Dev(0)), typename: false, op: OpKind::Query, root_fragments: true } };
-    sweep(cx, &st, &ir, "query-dynamic", &dq, deco, &[&dy_t]);
+    sweep(cx, &st, &ir, "query-dynamic", &dq, deco, &[dy_t, &ts.dy_fast]);
     let m = GenCfg { schema: &ir, fields: M_FIELDS, conds: &["A"], max_nodes: if quick { 3 } else { 4 }, max_depth: 3, named_fragments: 1, deco: Some(Class::Dev(0)), typename: false, op: OpKind::Mutation, root_fragments: true };
-    sweep(cx, &st, &ir, "mutation", &m, 1, &[&st_t, &dy_t]);
+    sweep(cx, &st, &ir, "mutation", &m, 1, &[st_t, dy_t]);
     let s = GenCfg { schema: &ir, fields: S_FIELDS, conds: &["A"], max_nodes: if quick { 3 } else { 4 }, max_depth: 3, named_fragments: 1, deco: Some(Class::Dev(0)), typename: false, op: OpKind::Subscription, root_fragments: false };
-    sweep(cx, &st, &ir, "subscription", &s, 1, &[&st_t, &dy_t]);
-    sweep_k(cx, &st, &kir, !quick, &k_t);
-    observations(cx, &ir, &[&st_t, &dy_t]);
+    sweep(cx, &st, &ir, "subscription", &s, 1, &[st_t, dy_t, &ts.st_fast]);
+    sweep_k(cx, &st, &kir, !quick, k_t);
+    sweep_k(cx, &st, &kir, !quick, &ts.k_fast);
+    observations(cx, &ir, &[st_t, dy_t]);
 
     let (ar, aa) = (st.agree_reject.load(Ordering::Relaxed), st.agree_accept.load(Ordering::Relaxed));
     if ar == 0 || aa == 0 {
         cx.machinery_error(format!("reference and implementation never agreed on {} (vacuous or systematically wrong)", if ar == 0 { "a rejection" } else { "an acceptance" }));
     }
     cx.rule(&format!(
-        "case = (document, flavour); for each of the 4 measures the schema is built with that one limit at m−1, m, m+1 (m = reference measure; negative limits dropped) and the request executed, plus one run without limits. Documents: (query-static) every valid query ≤ {nodes} selection nodes over S1's subset (fields per type {FIELDS:?}, fragment conditions {CONDS:?}, ≤ 2 named fragments incl. nested spreads, inline fragments typed/untyped), structure exhaustive, ≤ {deco} decoration(s) (alias; 12 @skip/@include forms incl. variables, 1 or 2 directives per node); {}(query-dynamic) the same with ≤ {dyn_nodes} nodes on the dynamic twin of S1; (mutation), (subscription: single root field, first stream response) ≤ {} nodes on both flavours; (custom-complexity) the K family: root entry ∈ 11 forms (incl. an object-typed fragment spread into an interface-typed selection set) × feed of n ∈ {{argument default, literal 3, literal 0, variable, variable default, given-over-default, nullable variable given, nullable variable omitted}} × sub-selection ∈ 8 forms (alias, spread of a fragment on the object / on the interface, inline fragment, @skip'd field, nested rule field with its own feed), optionally a second root entry ({}). All-default world. Non-trivial = (document, flavour) on which both an expected rejection and an expected acceptance were observed and agreed.",
+        "case = (document, flavour); flavours: static (derive), dynamic, and both built with ValidationMode::Fast (query families and the custom-complexity family); for each of the 4 measures the schema is built with that one limit at m−1, m, m+1 (m = reference measure; negative limits dropped) and the request executed, plus one run without limits. Documents: (query-static) every valid query ≤ {nodes} selection nodes over S1's subset (fields per type {FIELDS:?}, fragment conditions {CONDS:?}, ≤ 2 named fragments incl. nested spreads, inline fragments typed/untyped), structure exhaustive, ≤ {deco} decoration(s) (alias; 12 @skip/@include forms incl. variables, 1 or 2 directives per node); {}(query-dynamic) the same with ≤ {dyn_nodes} nodes on the dynamic twin of S1; (mutation), (subscription: single root field, first stream response) ≤ {} nodes on both flavours; (custom-complexity) the K family: root entry ∈ 11 forms (incl. an object-typed fragment spread into an interface-typed selection set) × feed of n ∈ {{argument default, literal 3, literal 0, variable, variable default, given-over-default, nullable variable given, nullable variable omitted}} × sub-selection ∈ 8 forms (alias, spread of a fragment on the object / on the interface, inline fragment, @skip'd field, nested rule field with its own feed), optionally a second root entry ({}). All-default world. Non-trivial = (document, flavour) on which both an expected rejection and an expected acceptance were observed and agreed.",
         if quick { "" } else { "(query-static-2-decorations) ≤ 3 nodes with ≤ 2 decorations on both flavours; " },
         if quick { 3 } else { 4 },
         if quick { "reduced menu of 4" } else { "full menu" }
@@ -637,15 +666,11 @@ fn run(cx: &Cx) {
 
 fn replay(case: &J) -> String {
     let ir = Ir::from_sdl(s1::SDL).unwrap();
-    let (st_t, dy_t, k_t) = match build_targets(&ir) {
+    let ts = match build_targets(&ir) {
         Ok(x) => x,
         Err(e) => return e,
     };
-    let t = match (case["family"].as_str().unwrap_or(""), case["flavour"].as_str().unwrap_or("")) {
-        ("custom-complexity", _) => &k_t,
-        (_, "dynamic") => &dy_t,
-        _ => &st_t,
-    };
+    let t = ts.by_label(case["family"].as_str().unwrap_or(""), case["flavour"].as_str().unwrap_or(""));
     let text = case["query"].as_str().unwrap_or("");
     let vars = case["variables"].as_object().cloned().unwrap_or_default();
     let op = case["operation"].as_str();
